@@ -135,7 +135,13 @@ func (b *Binding) Fill(v *ref.Vals) Codec { return b.FillOpt(v, false) }
 // FillOpt: with rawIDs the SMGP message ids are given as their 10 raw octets (the other form the
 // encoders accept) instead of the 20-digit hexadecimal form the decoders produce.
 func (b *Binding) FillOpt(v *ref.Vals, rawIDs bool) Codec {
-	c := b.New()
+	return b.FillInto(b.New(), v, rawIDs)
+}
+
+// FillInto assigns the fields of v to an EXISTING value (a PDU value that was used - encoded, decoded -
+// before and is reused for the next message): every member the specification names is set, members that
+// hold nil in v are reset.
+func (b *Binding) FillInto(c Codec, v *ref.Vals, rawIDs bool) Codec {
 	rv := reflect.ValueOf(c).Elem()
 	if b.Spec.Hdr != ref.HdrNone {
 		h := rv.FieldByName("Header")
@@ -171,7 +177,8 @@ func (b *Binding) FillOpt(v *ref.Vals, rawIDs bool) Codec {
 		case ref.List:
 			l := v.L(f.Name)
 			if l == nil {
-				continue // nil slice
+				fv.Set(reflect.Zero(fv.Type())) // nil slice
+				continue
 			}
 			ss := make([]string, len(l))
 			for i, x := range l {
@@ -183,12 +190,15 @@ func (b *Binding) FillOpt(v *ref.Vals, rawIDs bool) Codec {
 				fv.SetString(string(v.B(f.Name)))
 			} else if x := v.B(f.Name); x != nil {
 				fv.SetBytes(append([]byte{}, x...))
+			} else {
+				fv.Set(reflect.Zero(fv.Type()))
 			}
 		case ref.Seq3:
 			fv.Set(reflect.ValueOf(v.S3(f.Name)))
 		case ref.TLVTail:
 			ts := v.T(f.Name)
 			if ts == nil {
+				fv.Set(reflect.Zero(fv.Type()))
 				continue
 			}
 			m := smpp.TLVs{}
@@ -199,6 +209,7 @@ func (b *Binding) FillOpt(v *ref.Vals, rawIDs bool) Codec {
 		case ref.OptTail:
 			ts := v.T(f.Name)
 			if ts == nil {
+				fv.Set(reflect.Zero(fv.Type()))
 				continue
 			}
 			m := smgp.Options{}
